@@ -5,6 +5,7 @@ import (
 	"fmt"
 	"net"
 	"net/url"
+	"sort"
 	"strings"
 
 	"github.com/saucelabs/forwarder/internal/verifsim/core"
@@ -123,7 +124,8 @@ func genC05(t *tape.Tape, tier string) any {
 				fmt.Fprintf(&sb, "  if (host == %q) return %q;\n", h, res)
 			}
 		}
-		for h, res := range pacMap {
+		for _, h := range sortedKeysOf(pacMap) {
+			res := pacMap[h]
 			if !seen[h] {
 				fmt.Fprintf(&sb, "  if (host == %q) return %q;\n", h, res)
 			}
@@ -446,6 +448,7 @@ func keys(m map[string]bool) []string {
 	for k := range m {
 		out = append(out, k)
 	}
+	sort.Strings(out)
 	return out
 }
 
